@@ -647,8 +647,8 @@ func sweeps() []sweep {
 		}},
 		{name: "field-indexes", table: "FieldIndexes", dedup: true, unused: true, gen: func(n int, v variant) program {
 			idx := v.uses(n)
-			return prog(mainOf("type T struct {\n"+lines(n+v.unused, func(i int) string { return fmt.Sprintf("\tF%d int\n", i) })+"}\n", "\tvar t T\n\ts := 0\n",
-				lines(n, func(i int) string { return fmt.Sprintf("\tt.F%d = %d\n", i, i) })+linesOf(idx, func(i int) string { return fmt.Sprintf("\ts = s*3 + t.F%d\n", i) }), "\tprintln(s)\n", v.closure), fmt.Sprintf("%d\n", mul3(idx)))
+			return prog(mainOf("type T struct {\n"+lines(n+v.unused, func(i int) string { return fmt.Sprintf("\tF%d int\n", i) })+"}\n", "\tvar t T\n\ts := 0\n"+lines(n, func(i int) string { return fmt.Sprintf("\tt.F%d = %d\n", i, i) }),
+				linesOf(idx, func(i int) string { return fmt.Sprintf("\ts = s*3 + t.F%d\n", i) }), "\tprintln(s)\n", v.closure), fmt.Sprintf("%d\n", mul3(idx)))
 		}},
 		{name: "template-string-constants", table: "Values.String", base: 1, dedup: true, gen: func(n int, v variant) program {
 			var src, want strings.Builder
@@ -1023,14 +1023,20 @@ func sizes(c *hx.Ctx, s sweep, limit int) []int {
 // knownFindings replays the recorded findings of this property on the real code.
 func knownFindings(c *hx.Ctx) {
 	for _, f := range c.Findings {
-		if f.ID != "opassign-register-leak" {
+		want, human := "", ""
+		switch f.ID {
+		case "opassign-register-leak":
+			want, human = "189\n", "func main() { s := 0; s += 3 (63 times); println(s) }"
+		case "nonlocal-field-assign-register-leak":
+			want, human = "1\n", "func main() { var t T; fn := func() { t.F = 1 (128 times) }; fn(); println(t.F) }"
+		default:
 			continue
 		}
-		o := execute(prog(f.Minimal, "189\n"))
+		o := execute(prog(f.Minimal, want))
 		c.Res.Count("C20 finding "+f.ID, true)
 		if o.kind != "built" {
 			c.Res.AddBreak(proto.Break{Kind: "property", Name: "limit-spurious-limit", Case: "C20 finding " + f.ID,
-				Human: "func main() { s := 0; s += 3 (63 times); println(s) }", Impl: o.kind + ": " + o.detail, Model: "built, prints 189", Finding: f.ID})
+				Human: human, Impl: o.kind + ": " + o.detail, Model: "built, prints " + strings.TrimSpace(want), Finding: f.ID})
 		}
 	}
 }
